@@ -570,6 +570,7 @@ func rulesC12(c *Ctx) {
 	c.ruleExistentialScan("R3")
 	c.ruleSigAllOps("R4")
 	c.ruleOutputVerifier("R5", false)
+	c.ruleOutputSignerKeys("R5")
 	c.ruleHelperAgreement("R6", false)
 	c.ruleKindDispatch("R7")
 	R.Rule("R8", "a secret is classified as 'not NUT-10' only by the JSON decoder: the parser rejects nothing before it hands the whole secret to json.Unmarshal", 1)
@@ -586,6 +587,7 @@ func rulesC13(c *Ctx) {
 	c.vocabProblems("R4")
 	c.ruleLockVerifier("R1", fnVerifyHTL, true)
 	c.ruleOutputVerifier("R2", true)
+	c.ruleOutputSignerKeys("R2")
 	c.ruleHelperAgreement("R3", true)
 	c.ruleCountingDiscipline("R4")
 	c.ruleExistentialScan("R4")
@@ -593,6 +595,53 @@ func rulesC13(c *Ctx) {
 	c.ruleKindDispatch("R4")
 	c.ruleSecretParserTotal("R4")
 	c.c13HashLockOnlyBeforeExpiry()
+}
+
+// ruleOutputSignerKeys: the key list the SIG_ALL output verifier counts signatures against (nut11.PublicKeys) is the
+// lock's own keys - the pubkeys tag and, for P2PK, the data key. Refund keys never belong to it: the output verifier
+// does not look at the locktime, so a refund key in that list can redirect a signed swap before the lock expires.
+func (c *Ctx) ruleOutputSignerKeys(rule string) {
+	R := c.R
+	f := c.fn(rule, "cashu/nuts/nut11.PublicKeys")
+	if f == nil {
+		return
+	}
+	fk := c.P.FuncKey(f)
+	ok, why := true, ""
+	n := 0
+	for _, og := range c.OpContexts(f) {
+		if og.Fn != f {
+			continue
+		}
+		for _, r := range og.SuccessReturns() {
+			n++
+			e := og.Of(r.Results[0])
+			if e.Has(func(x *Ex) bool { return x.K == "field" && x.S == "Refund" }) || strings.Contains(e.String(), ".Refund") {
+				ok, why = false, "the returned key list contains the refund keys: "+short(e.String(), 160)
+			}
+			if !strings.Contains(e.String(), ".Pubkeys") {
+				ok, why = false, "the returned key list is not built on the pubkeys tag: "+short(e.String(), 160)
+			}
+		}
+	}
+	// refund keys reach the list through a helper too: any read of the Refund field inside the function or its new helpers
+	for _, g := range c.OpFuncs(f) {
+		for _, b := range g.Blocks {
+			for _, in := range b.Instrs {
+				switch x := in.(type) {
+				case *ssa.FieldAddr:
+					if fieldName(x) == "Refund" {
+						ok, why = false, "the refund keys are read at "+c.P.InstrPos(in)
+					}
+				case *ssa.Field:
+					if st, isSt := x.X.Type().Underlying().(*types.Struct); isSt && st.Field(x.Field).Name() == "Refund" {
+						ok, why = false, "the refund keys are read at "+c.P.InstrPos(in)
+					}
+				}
+			}
+		}
+	}
+	R.Check(rule, fk, "output signer keys = lock keys only", c.P.Pos(f.Pos()), ok && n > 0, "the keys whose signatures count on the outputs are the pubkeys tag and the data key, never the refund keys", why)
 }
 
 // c13HashLockOnlyBeforeExpiry: R5. After the locktime only the refund rule applies: the verifier looks at the lock
